@@ -406,7 +406,9 @@ func verifyLemma(w *World, lm *Lemma) (res *FuncResult) {
 	if q, ok := expr.(CQuant); ok && q.Forall {
 		for _, p := range q.Vars {
 			s, gt := vc.specSort(p.Type, env.pkg)
-			env.bound[p.Name] = vc.freshOfSort(p.Name, s, gt)
+			sk := vc.freshOfSort(p.Name, s, gt)
+			env.bound[p.Name] = sk
+			vc.entry[p.Name] = sk // visible to the region of a known finding
 		}
 		expr = q.Body
 	}
